@@ -87,7 +87,7 @@ func (w *World) PreludeProof(wasmRule []byte) *types.Address {
 	res := w.Must(w.Block(XVMDeploy(KW, w.N.Next(KW), wasmRule)))
 	ruleAddr := types.NewAddress(res.Receipts[0].Ret)
 	fab := `{"channel_id":"1","chaincode_id":"2","broker_version":"3"}`
-	mk := func(k interface{ }, tx *pb.BxhTransaction) {
+	mk := func(k interface{}, tx *pb.BxhTransaction) {
 		r := w.Must(w.Block(tx))
 		w.Approve(ProposalID(r.Receipts[0]))
 	}
@@ -154,7 +154,7 @@ var (
 
 // ProofWorld returns a fresh world restored from the (cached) proof-prelude snapshot.
 func ProofWorld(opt Options) (*World, *types.Address) {
-	key := fmt.Sprintf("%+v", opt)
+	key := opt.Key()
 	proofMu.Lock()
 	s, ok := proofSnaps[key]
 	if !ok {
